@@ -5,6 +5,7 @@ pub mod c01;
 pub mod c02;
 pub mod c03;
 pub mod c04;
+pub mod c05;
 pub mod c08;
 pub mod c10;
 pub mod c11;
@@ -19,6 +20,7 @@ pub fn run(ctx: &mut Ctx) {
         "C02" => c02::run(ctx),
         "C03" => c03::run(ctx),
         "C04" => c04::run(ctx),
+        "C05" => c05::run(ctx),
         "C08" => c08::run(ctx),
         "C10" => c10::run(ctx),
         "C11" => c11::run(ctx),
@@ -35,6 +37,7 @@ pub fn replay(ctx: &mut Ctx, stage: &str, case: &Value) -> Result<(), String> {
         "C02" => c02::replay(ctx, stage, case),
         "C03" => c03::replay(ctx, stage, case),
         "C04" => c04::replay(ctx, stage, case),
+        "C05" => c05::replay(ctx, stage, case),
         "C08" => c08::replay(ctx, stage, case),
         "C10" => c10::replay(ctx, stage, case),
         "C11" => c11::replay(ctx, stage, case),
